@@ -1148,6 +1148,8 @@ package kcache
 /*@ func (*kcache.publisher).Subscribe
   props C05 C12
   requires (and (not (= {s} vnil)) (not (= {s.subscribech} vnil)) (not (= {s.lc} vnil)) (not {closed(s.subscribech)}))
+  at recv(resultch) assume [the-reply-is-the-subscription-created-by-run-for-this-request] (and $ok (not (= $val vnil)))
+  ensures (=> (= result1 vnil) (not (= result0 vnil)))
 @*/
 /*@ func (*kcache.publisher).Close
   props C11
@@ -1206,4 +1208,164 @@ package kcache
         (not (= {c.syncch} vnil)) (not (= {c.updatech} vnil)) (not (= {c.refilterch} vnil)) (not (= {c.listch} vnil)) (not (= {c.getch} vnil))
         (= {c.filter} {filter}) (WFitems {dom(c.items)} {val(c.items)}))
   ensures (not (= result vnil))
+@*/
+
+/*@ func (*kcache.publisher).SubscribeWithFilter
+  props C06 C08
+  theory wiring filters
+  requires (and (not (= {s} vnil)) (not (= {s.log} vnil)) (not (= {s.subscribech} vnil)) (not (= {s.lc} vnil)) (not {closed(s.subscribech)}) (not (= {f} vnil)))
+  at call(newFilterSubscription) assert [immediate-readiness] (not $3)
+  at call(newFilterSubscription) assert [with-the-given-filter] (= $2 {f})
+  ensures (=> (= result1 vnil) (not (= result0 vnil)))
+@*/
+/*@ func (*kcache.publisher).SubscribeForFilter
+  props C08
+  theory wiring filters
+  requires (and (not (= {s} vnil)) (not (= {s.log} vnil)) (not (= {s.subscribech} vnil)) (not (= {s.lc} vnil)) (not {closed(s.subscribech)}))
+  at call(newFilterSubscription) assert [deferred-readiness-with-a-filter-that-rejects-everything] (and $3 (rejectsAll $2))
+  ensures (=> (= result1 vnil) (not (= result0 vnil)))
+@*/
+/*@ func (*kcache.publisher).Clone
+  props C05 C08 C11
+  theory wiring
+  requires (and (not (= {s} vnil)) (not (= {s.log} vnil)) (not (= {s.subscribech} vnil)) (not (= {s.lc} vnil)) (not {closed(s.subscribech)}))
+  ensures (=> (= result1 vnil) (not (= result0 vnil)))
+@*/
+/*@ func kcache.newFilterPublisher
+  props C08 C11 C06
+  theory wiring
+  fresh result
+  requires (and (not (= {log} vnil)) (not (= {subscription} vnil)))
+  ensures [is-filter-controller-over-the-subscription] (and (not (= result vnil)) (= (dyntype result) |ty!*kcache.filterController|)
+        (= (|F!kcache.filterController!subscription| result) {subscription}))
+  ensures [ready-is-the-subscriptions] (= (sub-ready result) (sub-ready {subscription}))
+@*/
+/*@ func (*kcache.publisher).CloneWithFilter
+  props C06 C08
+  theory wiring filters
+  requires (and (not (= {s} vnil)) (not (= {s.log} vnil)) (not (= {s.subscribech} vnil)) (not (= {s.lc} vnil)) (not {closed(s.subscribech)}) (not (= {f} vnil)))
+  ensures (=> (= result1 vnil) (not (= result0 vnil)))
+@*/
+/*@ func (*kcache.publisher).CloneForFilter
+  props C08 C09
+  theory wiring filters
+  requires (and (not (= {s} vnil)) (not (= {s.log} vnil)) (not (= {s.subscribech} vnil)) (not (= {s.lc} vnil)) (not {closed(s.subscribech)}))
+  ensures (=> (= result1 vnil) (not (= result0 vnil)))
+@*/
+/*@ func (*kcache.filterController).Refilter
+  props C06 C09
+  requires (and (not (= {c} vnil)) (not (= {c.subscription} vnil)) (not (= {filter} vnil)))
+  at call(Refilter) assert [refilters-its-own-subscription-with-the-given-filter] (and (= $recv {c.subscription}) (= $0 {filter}))
+@*/
+
+/*@ chaninv kcache._watcher.resetch
+@*/
+/*@ func (*kcache._watcher).reset
+  props C04 C12
+  requires (and (not (= {w} vnil)) (not (= {w.resetch} vnil)) (not (= {w.lc} vnil)) (not {closed(w.resetch)}))
+  at send(resetch) assert [sends-the-requested-version] (= $val {vsn})
+@*/
+/*@ func (*kcache._watcher).events
+  props C04 C12
+  requires (and (not (= {w} vnil)) (not (= {w.evtch} vnil)) (not (= {w.lc} vnil)) (not {closed(w.evtch)}))
+@*/
+/*@ func kcache.newWatcher
+  props C11 C04
+  fresh result
+  requires (and (not (= {log} vnil)) (not (= {ctx} vnil)))
+  at go(WatchChannel) assert [stops-when-its-creator-shuts-down] (= $0 {stopch})
+  at go(WatchContext) assert [stops-with-its-context] (= $0 {ctx})
+  at go(run) assert [run-starts-with-valid-state] (and (not (= {w.resetch} vnil)) (not (= {w.evtch} vnil)) (not (= {w.lc} vnil)) (not (= {w.log} vnil)) (not (= {w.ctx} vnil))
+        (= {w.client} {client}))
+  ensures (not (= result vnil))
+@*/
+/*@ func kcache.newLister
+  props C11 C13
+  fresh result
+  requires (and (not (= {log} vnil)) (not (= {ctx} vnil)))
+  at go(WatchChannel) assert [stops-when-its-creator-shuts-down] (= $0 {stopch})
+  at go(WatchContext) assert [stops-with-its-context] (= $0 {ctx})
+  at go(run) assert [run-starts-with-valid-state] (and (not (= {l.resultch} vnil)) (not (= {l.lc} vnil)) (not (= {l.log} vnil)) (not (= {l.ctx} vnil))
+        (= {l.client} {client}) (= {l.period} {period}))
+  ensures (not (= result vnil))
+@*/
+
+/*@ func (*kcache._cache).sync
+  props C15 C12
+  theory cachereq
+  requires (and (not (= {c} vnil)) (not (= {c.syncch} vnil)) (not (= {c.lc} vnil)) (not {closed(c.syncch)}))
+  requires [list-elements-nonnil] (listNonNil {list})
+  at send(syncch) assert [one-request-with-the-callers-list] (= (|kcache.syncRequest.list| $val) {list})
+@*/
+/*@ func (*kcache._cache).update
+  props C15 C12
+  theory cachereq
+  requires (and (not (= {c} vnil)) (not (= {c.updatech} vnil)) (not (= {c.lc} vnil)) (not {closed(c.updatech)}))
+  requires [event-carries-an-object] (and (not (= {evt} vnil)) (not (= (evt-res {evt}) vnil)))
+  at send(updatech) assert [one-request-with-the-callers-event] (= (|kcache.updateRequest.evt| $val) {evt})
+@*/
+/*@ func (*kcache._cache).refilter
+  props C15 C12
+  theory cachereq
+  requires (and (not (= {c} vnil)) (not (= {c.refilterch} vnil)) (not (= {c.lc} vnil)) (not {closed(c.refilterch)}))
+  requires [arguments] (and (listNonNil {list}) (not (= {filter} vnil)))
+  at send(refilterch) assert [one-request-with-the-callers-arguments] (and (= (|kcache.refilterRequest.list| $val) {list}) (= (|kcache.refilterRequest.filter| $val) {filter}))
+@*/
+/*@ func (*kcache._cache).List
+  props C15 C12
+  requires (and (not (= {c} vnil)) (not (= {c.listch} vnil)) (not (= {c.lc} vnil)) (not {closed(c.listch)}))
+@*/
+/*@ func (*kcache._cache).Get
+  props C15 C12
+  theory cachereq
+  requires (and (not (= {c} vnil)) (not (= {c.getch} vnil)) (not (= {c.lc} vnil)) (not {closed(c.getch)}))
+  at send(getch) assert [asks-for-the-callers-key] (= (|kcache.getRequest.key| $val) (|mk!kcache.cacheKey| {ns} {name}))
+@*/
+/*@ func (*kcache._cache).GetObject
+  props C15
+  theory obj
+  requires (and (not (= {c} vnil)) (not (= {obj} vnil)) (not (= {c.getch} vnil)) (not (= {c.lc} vnil)) (not {closed(c.getch)}))
+  at call(Get) assert [looks-up-the-objects-own-key] (and (= $1 (obj-ns {obj})) (= $2 (obj-name {obj})))
+@*/
+
+/*@ func (*kcache._ticker).Reset
+  props C13 C12
+  requires (and (not (= {t} vnil)) (not (= {t.resetch} vnil)) (not (= {t.donech} vnil)) (not {closed(t.resetch)}))
+@*/
+/*@ func (*kcache._ticker).Stop
+  props C13 C12
+  requires (and (not (= {t} vnil)) (not (= {t.stopch} vnil)) (not (= {t.donech} vnil)) (not {closed(t.stopch)}))
+@*/
+/*@ func (*kcache._ticker).Next
+  props C13
+  implements kcache.ticker.Next
+  requires (and (not (= {t} vnil)) (not (= {t.nextch} vnil)))
+@*/
+/*@ func (*kcache._ticker).Done
+  props C13
+  implements kcache.ticker.Done
+  requires (and (not (= {t} vnil)) (not (= {t.donech} vnil)))
+@*/
+
+/*@ func kcache.NewMonitor
+  props C16 C11
+  requires (and (not (= {publisher} vnil)) (not (= {handler} vnil)))
+  at go(run) assert [run-starts-with-the-new-subscription-and-the-given-handler] (and (not (= {m.sub} vnil)) (= {m.handler} {handler}) (not (= {m.lc} vnil)))
+  ensures (=> (= result1 vnil) (not (= result0 vnil)))
+@*/
+
+/*@ func (*kcache.builder).Create
+  props C11 C08 C03
+  theory wiring
+  requires (and (not (= {b} vnil)) (not (= {b.lb} vnil)) (not (= {b.wb} vnil)) (not (= {b.filter} vnil)) (not (= {b.ctx} vnil)))
+  at call(newCache) assert [cache-stops-with-the-controller-and-uses-the-builder-filter] (and (= $2 (lc-stopping {lc})) (= $3 {b.filter}) (= $0 {b.ctx}))
+  at call(newSubscription) assert [root-subscription-stops-with-the-controller-and-shares-its-ready-and-cache] (and (= $1 (lc-stopping {lc})) (= $2 {readych}) (= $3 {cache}))
+  at call(newPublisher) assert [publisher-feeds-from-the-root-subscription] (= $1 {subscription})
+  at call(newLister) assert [lister-stops-with-the-controller] (and (= $2 (lc-stopping {lc})) (= $0 {b.ctx}) (= $3 {b.lb.period}) (= $4 {b.lb.client}))
+  at call(newWatcher) assert [watcher-stops-with-the-controller] (and (= $2 (lc-stopping {lc})) (= $0 {b.ctx}) (= $3 {b.wb.client}))
+  at go(WatchContext) assert [controller-stops-with-its-context] (= $0 {b.ctx})
+  at go(run) assert [run-starts-with-everything-wired] (and (not (= {c.readych} vnil)) (not (= {c.watcher} vnil)) (not (= {c.lister} vnil)) (not (= {c.cache} vnil))
+        (not (= {c.subscription} vnil)) (not (= {c.log} vnil)) (not (= {c.lc} vnil)) (not {closed(c.readych)})
+        (= {c.readych} {readych}) (= {c.cache} {cache}) (= {c.subscription} {subscription}) (= {c.publisher} {publisher}))
+  ensures (=> (= result1 vnil) (not (= result0 vnil)))
 @*/
